@@ -160,6 +160,10 @@ Definition msg_of_rec (c seq : N) (x : rec) : arow :=
   AR (M seq (i_id x) c (i_cno x) (i_uid x) (hashPayload (i_payload x)) (i_payload x) (i_ts x))
      (negb (N.land (i_flags x) syncOnceFlag =? 0)).
 
+(* typed records (ChannelLog.Append / ApplyFetch) carry no framer flags *)
+Definition typed (x : rec) : rec :=
+  R (i_id x) (i_cno x) (i_uid x) (i_payload x) (i_ts x) 0 (i_ridx x) (i_rid x).
+
 Fixpoint msgs_from (c seq : N) (recs : list rec) : list arow :=
   match recs with
   | [] => []
@@ -309,7 +313,7 @@ Definition spec_mutate (s : aspec) (o : op) (x : out) : option aspec :=
     | [] => if (b =? 0) && (l =? 0) && (n =? 0) then Some s else None
     | _ => if (b =? al_leo lg + 1) && ((base =? 0) || (base =? b))
               && (l + 1 =? b + N.of_nat (length recs)) && (n =? N.of_nat (length recs))
-           then Some (spec_append s c (msgs_from c b recs)) else None
+           then Some (spec_append s c (msgs_from c b (map typed recs))) else None
     end
   | OApply c base recs ck ep, XApp b l n =>
     let lg := as_log s c in
@@ -318,7 +322,7 @@ Definition spec_mutate (s : aspec) (o : op) (x : out) : option aspec :=
       | [] => if (b =? 0) && (l =? 0) && (n =? 0) then Some s else None
       | _ => if (b =? al_leo lg + 1) && ((base =? 0) || (base =? b))
                 && (l + 1 =? b + N.of_nat (length recs)) && (n =? N.of_nat (length recs))
-             then Some (spec_append s c (msgs_from c b recs)) else None
+             then Some (spec_append s c (msgs_from c b (map typed recs))) else None
       end in
     match s1 with
     | None => None
